@@ -3,6 +3,7 @@ import asyncio
 from datetime import timedelta
 
 from .. import assert_repo
+from ..links import ANY_LINK
 
 ID = 'C19'
 LEVEL = 'exploration'
@@ -426,7 +427,7 @@ def run_case(gen, idx, rng, tier):
         if rng.random() < 0.25:
             sigs[(t, 'b', 'raises')] = rng.choice(sorted(RAISES))
     requests = gen_requests(rng, nreq)
-    results, names, alive = vloop.run(_run(rng, table, sigs, requests, rng.choice(['bytes', 'messages'])))
+    results, names, alive = vloop.run(_run(rng, table, sigs, requests, rng.choice(ANY_LINK)))
     if alive is None:
         return {'inconclusive': 'task attributes not found'}
     wit, st, nt = judge(table, names, results, alive, sigs)
